@@ -30,6 +30,9 @@ type Term struct {
 	Str   string // KStr const (Go bytes; each byte one SMT char)
 	// free symbols (variable names) appearing in the term; shared slices, never mutated.
 	Syms []string
+	// structure of applications (used for flattening / simplification)
+	Op   string
+	Args []*Term
 }
 
 func (t *Term) String() string { return t.S }
@@ -161,7 +164,7 @@ func app(k Kind, w int, op string, args ...*Term) *Term {
 		b.WriteString(a.S)
 	}
 	b.WriteByte(')')
-	return &Term{K: k, W: w, S: b.String(), Syms: mergeSyms(args...)}
+	return &Term{K: k, W: w, S: b.String(), Syms: mergeSyms(args...), Op: op, Args: args}
 }
 
 // App builds an application of an (uninterpreted or builtin) function without folding.
@@ -448,7 +451,15 @@ func Concat(a, b *Term) *Term {
 
 func StrConcat(ts ...*Term) *Term {
 	var xs []*Term
+	var flat []*Term
 	for _, t := range ts {
+		if t.Op == "str.++" {
+			flat = append(flat, t.Args...)
+		} else {
+			flat = append(flat, t)
+		}
+	}
+	for _, t := range flat {
 		if t.Const && t.Str == "" {
 			continue
 		}
